@@ -23,7 +23,9 @@ TOP_ASM = ["crypto_stream/salsa20/xmm6/salsa20_xmm6-asm.S",
 
 VARIANT_DROP = {
     "native": [],
-    "noasm": ["HAVE_AMD64_ASM", "HAVE_INLINE_ASM"],
+    # noasm also allocates its work areas with posix_memalign instead of mmap (no HAVE_MMAP): page-granular mappings hide an overrun of a
+    # few bytes from every sanitizer, a heap block does not (scrypt region, guarded allocations)
+    "noasm": ["HAVE_AMD64_ASM", "HAVE_INLINE_ASM", "HAVE_MMAP"],
     "noti": ["HAVE_TI_MODE"],
     "portable": ["HAVE_AMD64_ASM", "HAVE_INLINE_ASM", "HAVE_AVX_ASM", "HAVE_TI_MODE",
                  "NATIVE_LITTLE_ENDIAN"],
@@ -54,6 +56,9 @@ FLAVOURS = {
              ["-O1", "-g", "-fsanitize=thread"], ["-fsanitize=thread"]),
     "plain": ("gcc", "g++", ["-O2", "-g"], ["-O1", "-g"], []),
     "plainclang": ("clang", "clang++", ["-O2", "-g"], ["-O1", "-g"], []),
+    # measurement only (tools/coverage.py): source-based line coverage of the library while the checks run
+    "prof": ("clang", "clang++", ["-O1", "-g", "-fprofile-instr-generate", "-fcoverage-mapping"], ["-O1", "-g"],
+             ["-fprofile-instr-generate"]),
 }
 
 BASE_CFLAGS = ["-pthread", "-fno-strict-aliasing", "-fno-strict-overflow", "-fPIC",
